@@ -146,7 +146,14 @@ def trust(chk, exe, cases, R, w, tier, rng):
             variants = [(None, raw)]
         for p, v in variants:
             lines.append(ctx); meta.append(None)
-            lines.append("VERIFY " + v.hex() + fl); meta.append((c, p, v))
+            lines.append("VERIFY " + v.hex() + fl); meta.append((c, p, v, ""))
+            if p is None:
+                # trust is decided by the VERIFYING context: the same file parsed under a context configured for the opposite outcome
+                # (a trusting one for an untrusted case, one without anchors and with another constraint for a trusted case) gets the same verdict
+                opp = ("PCTX - %s %s" % (E, e("someone@else.example"))) if c["trusted"] else ("PCTX %s %s %s" % (w.ca_pem, E, e(pubfile.EMAIL)))
+                lines.append(opp); meta.append(None)
+                lines.append("VERIFY " + v.hex() + fl); meta.append((c, p, v, ":parsed-under-another-context"))
+                lines.append("PCTX off"); meta.append(None)
     outs, crashes = vlib.run_lines(exe, lines)
     for idx, rc, err in crashes:
         chk.violation("crash:trust", "libksi crashed verifying a publications file\n" + err[-1500:], dict(line=lines[idx][:4000], ctx=lines[idx - 1][:400]))
@@ -154,14 +161,14 @@ def trust(chk, exe, cases, R, w, tier, rng):
     for m, o, i in zip(meta, outs, range(len(lines))):
         if m is None or o is None:
             continue
-        c, p, v = m; f = kv(o); n += 1
+        c, p, v, how = m; f = kv(o); n += 1
         ok = int(f["parse"], 16) == 0 and int(f["rc"], 16) == 0
         a = c["case"]["c"]; dev = sorted(k for k in a if a[k] != c_good()[k])
         if ok and not c["trusted"]:
-            chk.violation("trusted:" + "+".join("%s=%s" % (k, a[k]) for k in dev), "publications file reported TRUSTED although %s%s" % ({k: a[k] for k in dev}, "" if p is None else " (octet %d altered)" % p),
+            chk.violation("trusted:" + "+".join("%s=%s" % (k, a[k]) for k in dev) + how, "publications file reported TRUSTED although %s%s" % ({k: a[k] for k in dev}, "" if p is None else " (octet %d altered)" % p),
                           dict(case=c, file=v.hex(), ctx=lines[i - 1], out=o))
         elif not ok and c["trusted"]:
-            chk.violation("honest-untrusted:" + "+".join("%s=%s" % (k, a[k]) for k in dev), "a correctly signed file is not trusted (%s): %s" % ({k: a[k] for k in dev}, o), dict(case=c, file=v.hex(), ctx=lines[i - 1], out=o))
+            chk.violation("honest-untrusted:" + "+".join("%s=%s" % (k, a[k]) for k in dev) + how, "a correctly signed file is not trusted (%s): %s" % ({k: a[k] for k in dev}, o), dict(case=c, file=v.hex(), ctx=lines[i - 1], out=o))
     return n, skipped
 
 
